@@ -1,12 +1,225 @@
-// Package c08 decides C08 (see /verif/DESIGN.md §7).
+// Package c08 decides C08: the pending-submission limit throttles but never deadlocks block production.
 package c08
 
-import "verifharness/vk"
+import (
+	"context"
+	"fmt"
+	"math/rand"
+	"strings"
+	"sync"
+	"time"
+
+	"verifharness/vk"
+	"verifharness/world"
+)
 
 // Level is the verification level claimed for this property.
 const Level = "exploration"
 
+// Case is one generated run.
+type Case struct {
+	ID      int    `json:"id"`
+	Limit   uint64 `json:"limit"`
+	Initial uint64 `json:"initial_height"`
+	Pattern string `json:"block_pattern"` // cycled: e = empty, x = non-empty
+	Outage  int    `json:"outage_rounds"`
+	Burst   int    `json:"produce_steps_per_round"`
+	Faults  string `json:"outage_fault"` // error | timeout | toobig | hdr-only | data-only
+	Rounds  int    `json:"rounds_after_outage"`
+}
+
+func (c Case) key() string {
+	return fmt.Sprintf("l%d i%d %s o%d b%d %s r%d", c.Limit, c.Initial, c.Pattern, c.Outage, c.Burst, c.Faults, c.Rounds)
+}
+
+type sim struct {
+	r    *vk.Run
+	c    Case
+	ctx  context.Context
+	n    *world.Node
+	seq  *world.SeqDouble
+	da   *world.DADouble
+	t    time.Time
+	k    int
+	viol []string
+	declined, produced int
+}
+
+func (s *sim) height() uint64 { h, _ := s.n.Store.Height(s.ctx); return h }
+
+// acceptedPrefix: the largest height h such that every blob needed for blocks <= h is on the DA double.
+func (s *sim) acceptedPrefix(data bool) uint64 {
+	have := map[uint64]bool{}
+	for _, blobs := range s.da.AllBlobs() {
+		for _, b := range blobs {
+			if h, isData, ok := decodeHeight(b); ok && isData == data {
+				have[h] = true
+			}
+		}
+	}
+	tip := s.height()
+	last := s.c.Initial - 1
+	for h := s.c.Initial; h <= tip; h++ {
+		need := true
+		if data {
+			_, d, err := s.n.Store.GetBlockData(s.ctx, h)
+			need = err == nil && len(d.Txs) > 0
+		}
+		if need && !have[h] {
+			break
+		}
+		last = h
+	}
+	return last
+}
+
+func (s *sim) produceStep() {
+	kind := s.c.Pattern[s.k%len(s.c.Pattern)]
+	// the response is only consumed when the step is not declined; keep exactly one response queued
+	if s.seq.Pending() == 0 {
+		s.t = s.t.Add(time.Second)
+		if kind == 'e' {
+			s.seq.Push(world.SeqResp{Kind: world.SeqEmpty, Time: s.t})
+		} else {
+			s.seq.Push(world.SeqResp{Kind: world.SeqTxs, Time: s.t, Txs: [][]byte{[]byte(fmt.Sprintf("c08-%d-%d", s.c.ID, s.k))}})
+		}
+	}
+	before := s.height()
+	wh := before - s.acceptedPrefix(false)
+	wd := before - s.acceptedPrefix(true)
+	err := s.n.M.VerifPublishBlock(s.ctx)
+	after := s.height()
+	if err != nil {
+		s.viol = append(s.viol, "production step failed: "+err.Error())
+		return
+	}
+	if after == before {
+		s.declined++
+		s.r.Hit("declined-justified")
+		if wh < s.c.Limit && wd < s.c.Limit {
+			s.viol = append(s.viol, fmt.Sprintf("step declined at height %d with limit %d although only %d headers and %d data items are still waiting for DA acceptance", before, s.c.Limit, wh, wd))
+		}
+	} else {
+		s.produced++
+		s.k++
+		s.r.Hit("produced")
+		if (wh >= s.c.Limit || wd >= s.c.Limit) {
+			s.r.Count("produced_although_at_limit", 1)
+			s.viol = append(s.viol, fmt.Sprintf("block %d produced although %d headers / %d data items were already waiting (limit %d): the bound is not respected", after, wh, wd, s.c.Limit))
+		}
+	}
+}
+
+func decodeHeight(blob []byte) (uint64, bool, bool) {
+	return world.DecodeBlobHeight(blob)
+}
+
+func run(r *vk.Run, c Case) {
+	ctx := context.Background()
+	s := &sim{r: r, c: c, ctx: ctx, seq: world.NewSeqDouble(), da: world.NewDADouble(), t: world.GenesisTime}
+	n, err := world.NewNode(ctx, world.NodeOpts{Aggregator: true, InitialHeight: c.Initial, MaxPending: c.Limit}, world.NewKeys("proposer"),
+		world.NewMemDS(world.NewImage()), world.NewExecDouble(), s.seq, s.da, nil)
+	if err != nil {
+		r.Violation("startup", err.Error(), c)
+		return
+	}
+	s.n = n
+	wit := func() any { return map[string]any{"case": c, "declined": s.declined, "produced": s.produced} }
+	round := func(faultH, faultD bool) {
+		if faultH {
+			for i := 0; i < 40; i++ {
+				s.da.ScriptSubmit(world.SubmitOutcome{Kind: c.faultKind()})
+			}
+		}
+		_ = s.n.M.VerifSubmitHeadersOnce(ctx)
+		s.da.ClearSubmitScript()
+		if faultD {
+			for i := 0; i < 40; i++ {
+				s.da.ScriptSubmit(world.SubmitOutcome{Kind: c.faultKind()})
+			}
+		}
+		_ = s.n.M.VerifSubmitDataOnce(ctx)
+		s.da.ClearSubmitScript()
+		for i := 0; i < c.Burst; i++ {
+			s.produceStep()
+		}
+	}
+	// outage
+	for i := 0; i < c.Outage; i++ {
+		fh, fd := true, true
+		if c.Faults == "hdr-only" {
+			fd = false
+		}
+		if c.Faults == "data-only" {
+			fh = false
+		}
+		round(fh, fd)
+	}
+	// DA accepts everything again: production must resume and keep going
+	h0 := s.height()
+	for i := 0; i < c.Rounds; i++ {
+		round(false, false)
+	}
+	h1 := s.height()
+	r.Hit("resumes")
+	// per round at most min(Burst, limit) blocks can be produced; at least one per round (minus one round of slack)
+	if int(h1-h0) < c.Rounds-1 {
+		s.viol = append(s.viol, fmt.Sprintf("with an accepting DA layer %d rounds of (submit headers, submit data, %d production steps) raised the height only from %d to %d", c.Rounds, c.Burst, h0, h1))
+	}
+	if len(s.viol) > 0 {
+		id := "C08-empty-data-watermark"
+		detail := strings.Join(s.viol[:min(len(s.viol), 4)], " ;; ")
+		if r.IsKnown(id) && strings.Contains(c.Pattern, "e") {
+			r.Finding(id, "throttle", detail, wit())
+		} else {
+			r.Violation("throttle", detail, wit())
+		}
+	}
+	r.Count("steps_declined", int64(s.declined))
+	r.Count("blocks_produced", int64(s.produced))
+	r.Eval(c.key(), s.declined > 0, c)
+}
+
+func (c Case) faultKind() string {
+	switch c.Faults {
+	case "timeout", "toobig":
+		return c.Faults
+	}
+	return "error"
+}
+
 // Run is the check entry point.
 func Run(r *vk.Run) {
-	r.Rule = "not implemented yet"
+	world.Silence()
+	r.Rule = "seeded runs of a real aggregator with MaxPendingHeadersAndData = limit in {1,2,3,5}: rounds of (one header-submission iteration, one data-submission iteration, 1-4 production steps); a DA outage of 0-6 rounds (all submissions fail, or only the header / only the data stream), then an accepting DA layer; block patterns all-empty, all-non-empty, alternating, long empty tails; initial height {1,4}. Safety per production step: declined => >= limit blocks are beyond the accepted prefix of the header or of the data stream (empty blocks need no data blob); produced => fewer than limit. Liveness: R accepting rounds raise the height by >= R-1. non-trivial = at least one declined step; distinct by parameter tuple"
+	r.Assume("a submission round is atomic in the harness: header iteration directly followed by data iteration (the two ticker loops of the node have the same period); production steps do not interleave between them")
+	rng := r.Rand("cases")
+	n := r.N(300, 4000)
+	patterns := []string{"e", "x", "ex", "xe", "xeeeee", "eeeex", "xxe", "eexx"}
+	faults := []string{"error", "timeout", "toobig", "hdr-only", "data-only"}
+	var cases []Case
+	for i := 0; i < n; i++ {
+		cases = append(cases, Case{ID: i, Limit: []uint64{1, 2, 3, 5}[rng.Intn(4)], Initial: []uint64{1, 4}[rng.Intn(2)],
+			Pattern: patterns[rng.Intn(len(patterns))], Outage: rng.Intn(7), Burst: 1 + rng.Intn(4), Faults: faults[rng.Intn(len(faults))], Rounds: 4 + rng.Intn(8)})
+	}
+	var wg sync.WaitGroup
+	ch := make(chan Case)
+	for w := 0; w < 14; w++ {
+		wg.Add(1)
+		go func() {
+			defer wg.Done()
+			for c := range ch {
+				run(r, c)
+			}
+		}()
+	}
+	for _, c := range cases {
+		ch <- c
+	}
+	close(ch)
+	wg.Wait()
+	r.Require("declined-justified", 50)
+	r.Require("resumes", int64(n))
 }
+
+var _ = rand.Int
